@@ -281,3 +281,25 @@ Theorem builder_history_irrelevant : forall h rs cs b0, forallb supported cs = t
 Proof.
   intros h rs cs b0 Hs. rewrite fold_left_app. cbn [fold_left do_bl]. apply recycled_builder_equals_fresh. exact Hs.
 Qed.
+
+(* ================================================================== round 6: the hypothesis `supported` is discharged *)
+(* C08's command type is final: every command is in the fragment, so the theorems above hold for ALL command sequences *)
+Lemma supported_all : forall c, supported c = true.
+Proof. destruct c; reflexivity. Qed.
+
+Lemma supported_all_list : forall cs, forallb supported cs = true.
+Proof. intros cs. apply forallb_forall. intros c _. apply supported_all. Qed.
+
+Theorem dirty_flag_harmless_all : forall cs b1 b2, links_ok b1 -> links_ok b2 -> same b1 b2 ->
+  strip (run b1 cs) = strip (run b2 cs) /\ run_errors b1 cs = run_errors b2 cs.
+Proof. intros cs b1 b2. apply dirty_flag_harmless. apply supported_all_list. Qed.
+
+Theorem recycled_builder_equals_fresh_all : forall rs d cs,
+  strip (run (recycled_state rs d) cs) = strip (run (init_state rs) cs) /\
+  run_errors (recycled_state rs d) cs = run_errors (init_state rs) cs.
+Proof. intros rs d cs. apply recycled_builder_equals_fresh. apply supported_all_list. Qed.
+
+Theorem builder_history_irrelevant_all : forall h rs cs b0,
+  strip (run (fold_left do_bl (h ++ [BReset rs]) b0) cs) = strip (run (init_state rs) cs) /\
+  run_errors (fold_left do_bl (h ++ [BReset rs]) b0) cs = run_errors (init_state rs) cs.
+Proof. intros h rs cs b0. apply builder_history_irrelevant. apply supported_all_list. Qed.
